@@ -614,6 +614,92 @@ func c01rebind(bound int) *explore.Scenario {
 	return sc
 }
 
+// c01inboundBurst: replies enter a NATed LAN router from its parent back to back while a LAN-internal sender
+// keeps that router busy: the replies must reach the original sender's socket in the order written, once each.
+func c01inboundBurst(nat natSpec, bound int, strict bool) *explore.Scenario {
+	name := fmt.Sprintf("replies enter the LAN (nat=%s) back to back while the LAN router is busy", nat)
+	if strict {
+		name += " [strict deviations]"
+	}
+	sc := &explore.Scenario{Name: name, Bound: bound}
+	sc.Cfg.Horizon = 5 * time.Second
+	sc.Cfg.Strict = strict
+	sc.Cfg.RandMenu = func(n int64) []int64 { return []int64{0} }
+	sc.Make = func() (func(), func(*zzvsched.Exec) (string, *explore.Violation)) {
+		var viol *explore.Violation
+		var a1 *rsock
+		finished := false
+		body := func() {
+			w := newWorld()
+			w.router("root", "1.2.3.0/24", "", nil, nil)
+			w.router("lanA", "10.1.0.0/24", "root", &nat, nil)
+			w.host("W1", "root", "1.2.3.10")
+			w.host("A1", "lanA", "10.1.0.50")
+			w.host("A2", "lanA", "10.1.0.51")
+			sink := w.sock("W1", "", 7000, "")
+			a1 = w.sock("A1", "", 6000, "")
+			a2 := w.sock("A2", "", 6000, "")
+			if err := w.routers["root"].Start(); err != nil {
+				panic(err)
+			}
+			zzvsched.WaitQuiet(time.Millisecond)
+			if _, err := a1.conn.WriteTo([]byte("hello"), &net.UDPAddr{IP: net.ParseIP("1.2.3.10"), Port: 7000}); err != nil {
+				panic(err)
+			}
+			zzvsched.WaitQuiet(time.Millisecond)
+			if len(sink.got) != 1 {
+				viol = &explore.Violation{Sig: "C01 lost", Msg: name + ": the first datagram did not arrive"}
+				return
+			}
+			src, _ := net.ResolveUDPAddr("udp", sink.got[0].src)
+			zzvsched.GoNamed("replier", func() {
+				for k := 0; k < 2; k++ {
+					if _, err := sink.conn.WriteTo([]byte(fmt.Sprintf("r%d", k)), src); err != nil {
+						viol = &explore.Violation{Sig: "C01 write-failed", Msg: name + ": " + err.Error()}
+					}
+				}
+			})
+			zzvsched.GoNamed("lan-sender", func() {
+				for k := 0; k < 1; k++ {
+					_, _ = a2.conn.WriteTo([]byte(fmt.Sprintf("x%d", k)), &net.UDPAddr{IP: net.ParseIP("10.1.0.50"), Port: 6000})
+				}
+			})
+			zzvsched.WaitQuiet(time.Millisecond)
+			finished = true
+		}
+		check := func(ex *zzvsched.Exec) (string, *explore.Violation) {
+			var all, rs []string
+			if a1 != nil {
+				for _, it := range a1.got {
+					all = append(all, string(it.payload))
+					if it.payload[0] == 'r' {
+						rs = append(rs, string(it.payload))
+					}
+				}
+			}
+			out := strings.Join(all, ",")
+			if len(ex.Panics) > 0 {
+				return out, &explore.Violation{Sig: "C01 panic", Msg: name + ": panic: " + ex.Panics[0].Value + "\n" + ex.Panics[0].Stack}
+			}
+			if viol != nil {
+				return out, viol
+			}
+			if ex.HorizonHit {
+				return out + " HORIZON", nil
+			}
+			if !finished {
+				return out, &explore.Violation{Sig: "C01 blocked", Msg: fmt.Sprintf("%s: blocked threads: %v", name, ex.Parked)}
+			}
+			if strings.Join(rs, ",") != "r0,r1" {
+				return out, &explore.Violation{Sig: "C01 order", Msg: fmt.Sprintf("%s: the replies r0, r1 written in this order to the observed source arrived at the original sender's socket as %v (everything it received: %v)", name, rs, all)}
+			}
+			return out, nil
+		}
+		return body, check
+	}
+	return sc
+}
+
 func c01concurrent(nat natSpec, nSenders, per, bound int, strict bool, queue int, delay ...time.Duration) *explore.Scenario {
 	name := fmt.Sprintf("concurrent nat=%s senders=%d x%d", nat, nSenders, per)
 	if queue > 0 {
@@ -799,10 +885,11 @@ func init() {
 				out = append(out, c01concurrent(nats[2], 3, 2, 1, true, 0)) // three senders: bound 1 in quick (bound 3 in thorough)
 				// bounded router queues: no loss while the number of datagrams stays below the bound,
 				// and with a bound of 1 whatever arrives is still intact, in order, once
-				out = append(out, c01concurrent(nats[0], 2, 2, 2, true, 5), c01concurrent(nats[0], 2, 2, 2, true, 1))
+				out = append(out, c01concurrent(nats[0], 2, 2, 2, true, 1)) // (queue bound 5: thorough)
 				out = append(out, c01closing(2, 2, true), c01closing(1, 1, false), c01rebind(2))
 				// routers that delay: nothing may be left behind in a queue
 				out = append(out, c01concurrent(nats[0], 2, 2, 2, true, 0, time.Millisecond))
+				out = append(out, c01inboundBurst(nats[0], 3, true))
 				return out
 			}
 			out = append(out, c01plan(c01topos[0], nats[0], 3, 0, 0))
@@ -815,14 +902,15 @@ func init() {
 			for _, n := range []natSpec{nats[0], nats[2], nats[5], nats[8], nats[9]} {
 				out = append(out, c01concurrent(n, 2, 2, 3, true, 0), c01concurrent(n, 3, 2, 3, true, 0))
 			}
-			out = append(out, c01concurrent(nats[0], 3, 2, 3, true, 7), c01concurrent(nats[4], 2, 2, 3, true, 1), c01concurrent(nats[0], 3, 2, 2, true, 2))
+			out = append(out, c01concurrent(nats[0], 2, 2, 2, true, 5), c01concurrent(nats[0], 3, 2, 3, true, 7), c01concurrent(nats[4], 2, 2, 3, true, 1), c01concurrent(nats[0], 3, 2, 2, true, 2))
 			for _, n := range []natSpec{nats[0], nats[9]} {
 				out = append(out, c01concurrent(n, 2, 1, 1, false, 0))
 			}
 			out = append(out, c01closing(2, 3, true), c01closing(2, 1, false), c01closing(1, 2, false), c01rebind(3))
 			out = append(out, c01concurrent(nats[0], 2, 2, 3, true, 0, time.Millisecond), c01concurrent(nats[9], 3, 2, 2, true, 0, 20*time.Millisecond))
+			out = append(out, c01inboundBurst(nats[0], 3, true), c01inboundBurst(nats[4], 2, true))
 			return out
 		},
-		Rule:        "topologies {root only; root+LAN; root+2 sibling LANs; root+LAN+nested LAN} with static / automatic / two-address hosts and sockets bound to a specific address, the wildcard, port 0 or dialled, x NAT {9 mapping/filtering combinations, 1:1} x every traffic plan of 2-3 sends over (sending socket) x (every socket address on every network, unbound port, unroutable IPs, loopback, the LAN's own external address, 'the source last observed by socket k'), payload sizes {1500,0,1}, sender buffer overwritten after WriteTo; after each send the system runs to quiescence and every socket's new receptions are compared with the routing/NAT model. Plus 2-3 concurrent senders x 2 datagrams through one NAT to one socket under every schedule within the deviation bound, followed by a reply to every observed source. Plus: one socket of the receiving host is closed while datagrams for it and for a second open socket of that host are in flight (the open socket must receive everything; Close returns; no thread stays blocked on a lock); a socket closed from two threads at once while a third binds its address again (the new socket then receives what is sent there and the address cannot be bound a second time).",
+		Rule:        "topologies {root only; root+LAN; root+2 sibling LANs; root+LAN+nested LAN} with static / automatic / two-address hosts and sockets bound to a specific address, the wildcard, port 0 or dialled, x NAT {9 mapping/filtering combinations, 1:1} x every traffic plan of 2-3 sends over (sending socket) x (every socket address on every network, unbound port, unroutable IPs, loopback, the LAN's own external address, 'the source last observed by socket k'), payload sizes {1500,0,1}, sender buffer overwritten after WriteTo; after each send the system runs to quiescence and every socket's new receptions are compared with the routing/NAT model. Plus 2-3 concurrent senders x 2 datagrams through one NAT to one socket under every schedule within the deviation bound, followed by a reply to every observed source. Plus: one socket of the receiving host is closed while datagrams for it and for a second open socket of that host are in flight (the open socket must receive everything; Close returns; no thread stays blocked on a lock); replies entering a NATed LAN back to back while a LAN-internal sender keeps its router busy (order at the original sender's socket); a socket closed from two threads at once while a third binds its address again (the new socket then receives what is sent there and the address cannot be bound a second time).",
 		Assumptions: []string{"external ports are 'some fresh port': bound to the value first observed, then required to be stable and unique", "no time passes (mapping lifetime 30 s); queues unbounded unless stated"}})
 }
